@@ -70,6 +70,12 @@ fn plan_for(id: SeqId, cf: Cf, kind: u8, at_ack: bool, rng: &mut Rng) -> ExPlan 
         p.replies = vec![f, fin];
     }
     p.mode = if kind % 2 == 0 { Mode::Eager } else { Mode::Lockstep };
+    // how the reply reaches the parser must not matter: whole reads, single bytes, PRNG chunks
+    p.sched = match rng.below(4) {
+        0 | 1 => crate::conn::Sched::whole(),
+        2 => crate::conn::Sched::one_byte(),
+        _ => crate::conn::Sched::random(rng),
+    };
     // sentinel behind everything
     p.tail = rc::ACK.to_vec();
     p.fault = "cf_sweep".into();
@@ -189,7 +195,7 @@ impl Check for C15 {
     }
 
     fn rule_text(&self) -> String {
-        "one run = one real sequence whose terminal answers with one well-framed reply of control field (c,i) and body in {empty, valid for the target variant, valid for another variant, PRNG}; thorough: all 65,536 (c,i) x 17 reply parsers x 4 bodies plus all 65,536 at the acknowledgement point (io::Ack); quick: alphabet, its +-1 neighbours, class-only / instr-only matches, other replies' control fields and 2,000 PRNG pairs per parser; oracle: in the command's reply set and decodable by the packet type on its own -> Ok with exactly that content (Debug equality), else exactly one Err and no acknowledgement; distinct = hash of (sequence, control field, model outcome)".into()
+        "one run = one real sequence whose terminal answers with one well-framed reply of control field (c,i) and body in {empty, valid for the target variant, valid for another variant, PRNG}, delivered whole, byte by byte or in PRNG chunks with spurious Pending; thorough: all 65,536 (c,i) x 17 reply parsers x 4 bodies plus all 65,536 at the acknowledgement point (io::Ack); quick: alphabet, its +-1 neighbours, class-only / instr-only matches, other replies' control fields and 2,000 PRNG pairs per parser; oracle: in the command's reply set and decodable by the packet type on its own -> Ok with exactly that content (Debug equality), else exactly one Err and no acknowledgement; distinct = hash of (sequence, control field, model outcome)".into()
     }
     fn assumptions(&self) -> Vec<String> {
         vec![
